@@ -72,19 +72,31 @@ Definition execs_of (h : hist) : list xrec :=
               map (fun e : Z * Z => mkX (fst jso) (fst e) (snd e)) (o_execs (snd (snd jso))))
            (steps_ix h).
 
-(* all Enqueue calls: (step, item) *)
+Definition close_step (h : hist) : option nat :=
+  option_map fst (find (fun jso : nat * (sstep * obs) =>
+                          match op_of (fst (snd jso)) with OClose => true | _ => false end)
+                       (steps_ix h)).
+
+Definition before_close (h : hist) (j : nat) : bool :=
+  match close_step h with Some c => (j <? c)%nat | None => true end.
+
+(* all Enqueue calls that were made before Close was called (later ones do nothing): (step, item) *)
 Definition enqs_of (h : hist) : list (nat * item) :=
   flat_map (fun jso : nat * (sstep * obs) =>
-              match op_of (fst (snd jso)) with OEnq it => [(fst jso, it)] | _ => [] end)
+              match op_of (fst (snd jso)) with
+              | OEnq it => if before_close h (fst jso) then [(fst jso, it)] else []
+              | _ => []
+              end)
            (steps_ix h).
 
 Definition removes (o : op) (k : Z) : bool :=
   match o with ODeq k' => k' =? k | OEnq it => ikey it =? k | _ => false end.
 
-(* the first step after step j that dequeues or replaces key k *)
+(* the first step after step j (and before Close is called) that dequeues or replaces key k *)
 Definition removal_after (h : hist) (j : nat) (k : Z) : option (nat * sstep) :=
   option_map (fun jso : nat * (sstep * obs) => (fst jso, fst (snd jso)))
-    (find (fun jso : nat * (sstep * obs) => (j <? fst jso)%nat && removes (op_of (fst (snd jso))) k)
+    (find (fun jso : nat * (sstep * obs) =>
+             (j <? fst jso)%nat && before_close h (fst jso) && removes (op_of (fst (snd jso))) k)
           (steps_ix h)).
 
 Definition step_clock (c : Z) (x : sstep) : Z :=
@@ -97,14 +109,6 @@ Definition step_clock (c : Z) (x : sstep) : Z :=
 (* the injected clock once step j is over *)
 Definition clock_at (c0 : Z) (h : hist) (j : nat) : Z :=
   fold_left (fun c so => step_clock c (fst so)) (firstn (S j) h) c0.
-
-Definition close_step (h : hist) : option nat :=
-  option_map fst (find (fun jso : nat * (sstep * obs) =>
-                          match op_of (fst (snd jso)) with OClose => true | _ => false end)
-                       (steps_ix h)).
-
-Definition before_close (h : hist) (j : nat) : bool :=
-  match close_step h with Some c => (j <? c)%nat | None => true end.
 
 (* the loop is not held by a test seam: it has no goroutine or is parked on its timer *)
 Definition free_pos (p : Z) : bool := (p =? 0) || (p =? 3).
